@@ -319,3 +319,16 @@ Example C03_wire_nonvacuous :
   c_wire (crun es) 0 = [WAns (OSubscribe 1 7 [107] false false) (RSub 0); WItem 0 (IEv (EValue (JNum [49])))] /\
   c_subq (crun es) 0 = [IEv (EValue (JNum [50]))].
 Proof. vm_compute. repeat split; reflexivity. Qed.
+
+(* at every quiescent point of the tasks (api channel empty, serve loops idle, owned channels drained): everything
+   posted has been served, every client holds the serial answers, and every subscription's socket has been handed
+   its whole stream *)
+Theorem C03_quiescent_point :
+  forall es, quiescent (crun es) ->
+    c_served (crun es) = c_posted (crun es) /\
+    c_core (crun es) = final init (map snd (c_posted (crun es))) /\
+    (forall sn, ans_proj (c_wire (crun es) sn) = mine sn (sres init (c_posted (crun es)))) /\
+    (forall i sn, c_owner (crun es) i = Some sn ->
+       evs_of (item_proj i (c_wire (crun es) sn)) = stream i init (map snd (c_posted (crun es)))).
+Proof. exact conc_quiescent. Qed.
+Print Assumptions C03_quiescent_point.
